@@ -20,7 +20,9 @@ EXHAUSTIVE = {"quick": False, "thorough": False}
 
 
 def universe(rng, b):
-    ls = [b.leaf(rng.choice("MR")) for _ in range(rng.randint(2, 5))]
+    # one universe in eight is large: sorting, the adjacent-duplicate scan and the hash set over 8-12 locks
+    big = rng.random() < 0.125
+    ls = [b.leaf(rng.choice("MR")) for _ in range(rng.randint(8, 12) if big else rng.randint(2, 5))]
     cands = list(ls)
     contains = {c: {c} for c in ls}     # candidate -> set of leaf cids it reaches
     for kind in ("boxed", "ref", "retry"):
@@ -58,7 +60,7 @@ def gen(tier, rng):
     for i in range(n):
         b = shapes.B(f"c07_{i}")
         cands, contains = universe(rng, b)
-        size = rng.randint(0, 6)
+        size = rng.randint(0, 6) if len(cands) < 8 else rng.randint(5, 12)
         want_dup = size >= 2 and rng.random() < 0.5
         members = []
         used = set()
